@@ -61,7 +61,8 @@ def run_unit(unit_name, tier, seed, only_props=None):
         miri = getattr(unit, "MIRI", False)
         if miri:
             # the real functions executed by Miri: every out-of-bounds access / other UB is reported
-            cmd = ["cargo", "+nightly", "miri", "test", "--offline", "--lib", unit.TEST_FILTER, "--", "--nocapture", "--test-threads", "8"]
+            # one test at a time: the case printed last is then the one Miri stopped in
+            cmd = ["cargo", "+nightly", "miri", "test", "--offline", "--lib", unit.TEST_FILTER, "--", "--nocapture", "--test-threads", "1"]
             result["backend"] = "native enumeration under Miri (cargo +nightly miri test) -- bounded stand-in, not a proof"
         else:
             cmd = ["cargo", "test", "--offline", "--lib"] + profile + [unit.TEST_FILTER, "--", "--nocapture", "--test-threads", "8"]
